@@ -180,7 +180,8 @@ type Ctx struct {
 	KnutBin     string
 	WorkDir     string
 	Drv         *Driver
-	OnlyIndex   int            // replay: only this index (-1 = all)
+	Replay      bool           // replay mode: only the case (OnlyStr, OnlyIndex) runs
+	OnlyIndex   int            // replay: only this index
 	OnlyStr     string         // replay: only this stream
 	ReplayInput map[string]any // replay: the finding's own input, for cases not reproducible from (stream, index)
 
